@@ -856,7 +856,12 @@ func (e *Engine) reify(st *State, reach Term, v Val) Term {
 	case a.Kind == aHeap && a.Off == 0 && typeKey(a.T) == typeKey(a.Root):
 		return a.Ref
 	case a.Kind == aGlobal && a.Off == 0:
-		return e.declare("gaddr."+a.Global.Pkg.Pkg.Name()+"."+a.Global.Name(), SInt)
+		g := e.declare("gaddr."+a.Global.Pkg.Pkg.Name()+"."+a.Global.Name(), SInt)
+		if !e.strSeen["gaddr:"+g.S] {
+			e.strSeen["gaddr:"+g.S] = true
+			e.assumes = append(e.assumes, T(SBool, "(and (> %s 0) (<= %s alloc0) (= (rtype %s) %d))", g, g, g, e.P.typeTag(a.Root)))
+		}
+		return g
 	}
 	// interior pointer (field of a struct, slice element, non-escaping cell): materialise a copy.
 	// Sound only if the receiver of the pointer does not write through it; recorded as assumption.
